@@ -809,6 +809,93 @@ def parse_offsets(txt):
     return (int(m1.group(1)) if m1 else None, int(m2.group(1)) if m2 else None, {k: tuple(v) for k, v in res.items()})
 
 
+def parse_offsets_full(txt):
+    """every number `ncoffsets [-s] [-g] [-r] [-v ...]` prints:
+    dict(fmt, ndims, nvars, ngatts, size, extent, dims [(name, size | ('U', current))], vars [dict(name, type, dims, kind, starts, ends, size, gap)])"""
+    res = dict(vars=[], dims=[])
+    for key, rx in (('fmt', r'// File format: CDF-(\d+)'), ('ndims', r'// Number of dimensions: (\d+)'), ('nvars', r'// Number of variables: (\d+)'),
+                    ('ngatts', r'// Number of global attributes: (\d+)'), ('size', r'size\s+= (-?\d+) bytes'), ('extent', r'extent = (-?\d+) bytes')):
+        m = re.search(rx, txt)
+        res[key] = int(m.group(1)) if m else None
+    sec, cur = None, None
+    for line in txt.split('\n'):
+        if line.startswith('dimensions:'):
+            sec = 'dims'
+        elif line.startswith('fixed-size variables:'):
+            sec = 'fixed'
+        elif line.startswith('record variables:'):
+            sec = 'rec'
+        elif sec == 'dims':
+            m = re.match(r'^\t(\S+) = (UNLIMITED // \((-?\d+) currently\)|-?\d+)$', line)
+            if m:
+                res['dims'].append((m.group(1), ('U', int(m.group(3))) if m.group(3) is not None else int(m.group(2))))
+        elif sec in ('fixed', 'rec'):
+            m = re.match(r'^\t(byte|char|short|int|float|double|ubyte|ushort|uint|int64|uint64)\s+([^\s(:]+)(\((.*)\))?:', line)
+            if m:
+                cur = dict(name=m.group(2), type=m.group(1), dims=[d.strip() for d in m.group(4).split(',')] if m.group(4) else [],
+                           kind=sec, starts=[], ends=[], size=None, gap=None)
+                res['vars'].append(cur)
+                continue
+            if cur is None:
+                continue
+            m = re.match(r'^\t\s+start file offset =\s*(-?\d+)', line)
+            if m:
+                cur['starts'].append(int(m.group(1)))
+            m = re.match(r'^\t\s+end   file offset =\s*(-?\d+)', line)
+            if m:
+                cur['ends'].append(int(m.group(1)))
+            m = re.match(r'^\t\s+size in bytes     =\s*(-?\d+)', line)
+            if m:
+                cur['size'] = int(m.group(1))
+            m = re.match(r'^\t\s+gap from prev var =\s*(-?\d+)', line)
+            if m:
+                cur['gap'] = int(m.group(1))
+    return res
+
+
+def expect_offsets(h, hl, flags, vlist=None):
+    """what ncoffsets must print for the decoded header h (independent of the Lean model: Python decoder + the
+    format's layout rules, record size of a single record variable unpadded)"""
+    lay, recsize = layout(h)
+    ids = list(range(len(h.vars))) if not vlist else [[v['name'] for v in h.vars].index(n.encode()) for n in vlist]
+    fixed_ids = [i for i in range(len(h.vars)) if not lay[i][0]]
+    rec_ids = [i for i in range(len(h.vars)) if lay[i][0]]
+    res = dict(fmt=h.fmt, ndims=len(h.dims), nvars=len(h.vars), ngatts=len(h.gatts), size=hl,
+               extent=(min(v['begin'] for v in h.vars) if h.vars else hl),
+               dims=[(n.decode(), ('U', h.numrecs) if sz == 0 else sz) for n, sz in h.dims], vars=[])
+
+    def uend(i):
+        return h.vars[i]['begin'] + lay[i][2]
+    for kind in ('fixed', 'rec'):
+        for i in ids:
+            isrec, shape, n, ln = lay[i]
+            if isrec != (kind == 'rec'):
+                continue
+            v = h.vars[i]
+            e = dict(name=v['name'].decode(), type=XT_NAME[v['xt']], dims=[h.dims[d][0].decode() for d in v['dimids']], kind=kind,
+                     size=(n if 's' in flags else None), gap=None)
+            nrec = (h.numrecs if 'r' in flags else 1) if isrec else 1
+            e['starts'] = [v['begin'] + recsize * j for j in range(nrec)]
+            e['ends'] = [v['begin'] + n + recsize * j for j in range(nrec)]
+            if 'g' in flags:
+                same = fixed_ids if not isrec else rec_ids
+                prev = [j for j in same if j < i]
+                if not isrec:
+                    e['gap'] = v['begin'] - hl if (i == 0 or not prev) else v['begin'] - uend(prev[-1])
+                elif i == 0 and not fixed_ids:
+                    e['gap'] = v['begin'] - hl
+                elif i == rec_ids[0]:
+                    e['gap'] = v['begin'] - uend(fixed_ids[-1])
+                else:
+                    e['gap'] = v['begin'] - uend(prev[-1])
+            res['vars'].append(e)
+    gaps = 0
+    for k, i in enumerate(fixed_ids):
+        if i >= 1 and k > 0 and h.vars[i]['begin'] - uend(fixed_ids[k - 1]) != 0:
+            gaps = 1
+    return res, gaps
+
+
 class Lean:
     """batched requests to the Lean driver"""
     def __init__(self):
@@ -1280,6 +1367,32 @@ def _run(V, rng, tier, seed, tree, wd):
     for k_, f_ in files.items():
         if k_.startswith('mr_'):
             f_['steps'] = emit_script(prog, f_['path'], f_['L'])
+    # files for ncoffsets: the record-packing special case (exactly ONE record variable whose record size is not a
+    # multiple of 4: records lie unpadded one after the other) with 0..3 fixed-size variables before / after it and
+    # 0..4 records; two record variables (padded records); no record variable
+    ODD = [('short', 3), ('byte', 1), ('char', 3), ('byte', 5), ('short', 1), ('char', 2), ('int', 1)]
+    po_pats = [tuple('F' * p + 'R' + 'F' * (nf - p)) for nf in range(0, 4) for p in range(0, nf + 1)] + \
+              [('R', 'R'), ('F', 'R', 'R'), ('R', 'F', 'R'), ('R', 'R', 'F'), ('F', 'F'), ('F',)]
+    po_keys = []
+    for pi, pat in enumerate(po_pats):
+        for nr in (range(0, 5) if thorough else [(pi + seed) % 5, (pi + seed + 2) % 5][:(2 if 'R' in pat and pat.count('R') == 1 else 1)]):
+            fmt_ = (1, 2, 5)[(pi + nr) % 3]
+            dims_ = [('t', 0), ('a', 3), ('b', 5), ('c', 2)] if 'R' in pat else [('a', 3), ('b', 5), ('c', 2)]
+            vars_ = []
+            for vi, c_ in enumerate(pat):
+                if c_ == 'R':
+                    xt_, n_ = rng.choice(ODD[:-1] if pat.count('R') == 1 else ODD)
+                    dn = {1: [], 2: ['c'], 3: ['a'], 5: ['b']}[n_]
+                    vars_.append(dict(name='r%d' % vi, xt=xt_, dims=['t'] + dn, atts=[('a', 'int', [vi])], data=None))
+                else:
+                    xt_, dn = rng.choice([('int', ['a']), ('byte', ['a']), ('short', ['b']), ('double', []), ('char', ['c', 'a']), ('short', [])])
+                    vars_.append(dict(name='f%d' % vi, xt=xt_, dims=dn, atts=[('a', 'int', [vi])], data=None))
+            Lp = dict(fmt=fmt_, dims=dims_, gatts=[('g', 'int', [1])], vars=vars_, numrecs=(nr if 'R' in pat else 0))
+            fill_data(rng, Lp)
+            key_ = 'po_%d_%d' % (pi, nr)
+            files[key_] = dict(path=os.path.join(wd, key_ + '.nc'), L=Lp, kw={})
+            files[key_]['steps'] = emit_script(prog, files[key_]['path'], Lp)
+            po_keys.append(key_)
     if thorough:
         # a header larger than ncvalidator's 1 MiB read window (the model reads flat): 300 text attributes of 4001 bytes
         BIG = dict(fmt=1, dims=[('x', 2)], gatts=[('big%03d' % i, 'char', [97 + (i + j) % 26 for j in range(4001)]) for i in range(300)],
@@ -1357,7 +1470,19 @@ def _run(V, rng, tier, seed, tree, wd):
             fail('ncmpidump-disagrees', 'ncmpidump prints metadata/values that differ from the file: %s' % dd[:3],
                  dict(file=k, logical=f['L'], diffs=dd[:10], dump=dso[-1500:]))
         distinct.add(('file', json.dumps(f['L'], sort_keys=True), str(f['kw'])))
-    log('[S4] per-file tools done (%.1fs)' % V.t.s())
+    # ncoffsets with every option combination on the record-packing files (and on the base files of stream lib)
+    OFF_OPTS = [(), ('-s',), ('-g',), ('-r',), ('-s', '-g'), ('-r', '-s'), ('-r', '-g'), ('-s', '-g', '-r'), ('-x',)]
+    off_jobs = []
+    for k in po_keys + [k for k in files if k.startswith('b') and '_' not in k]:
+        names = [v['name'] for v in files[k]['L']['vars']]
+        for o in OFF_OPTS:
+            off_jobs.append((k, o, None))
+        if names:
+            sub = rng.shuffle(names)[:rng.range(1, len(names))]
+            off_jobs.append((k, ('-s', '-g', '-r'), sub))
+            off_jobs.append((k, ('-g',), [names[-1]]))
+    off_res = pmap(lambda j: run([T['ncoffsets']] + list(j[1]) + (['-v', ','.join(j[2])] if j[2] else []) + [files[j[0]]['path']]), off_jobs, workers=12)
+    log('[S4] per-file tools done, ncoffsets run with %d option/variable-list combinations (%.1fs)' % (len(off_jobs), V.t.s()))
     # ---- pairs
     pairs = []          # (a, b, tag, equal)
     for bk, vs in groups:
@@ -1633,7 +1758,8 @@ def _run(V, rng, tier, seed, tree, wd):
         if o is not None and 'offs' in f:
             size, ext, ex = f['offs']
             want = 'O %d %d %s' % (size, ext, ' '.join('%d %d' % e for e in ex))
-            if o.strip() != want.strip():
+            f['lean_O'] = o
+            if o.split(' R ')[0].strip() != want.strip():
                 ties.append(('offsets', 'file %s: model layout "%s", tools "%s"' % (k, o, want)))
     # diff pairs
     for a, b, tag, equal in pairs:
@@ -1676,6 +1802,54 @@ def _run(V, rng, tier, seed, tree, wd):
         a = ans.get(('D', k, 'rt'))
         if a is not None and a.split()[1:] != ['0,0', '0,0', '1']:
             ties.append(('roundtrip', 'regenerated file of %s: model says %s, tools say equal' % (k, a)))
+    # ncoffsets, every option: all printed numbers vs the independent decoder, vs Tools.offsetsRecs, vs the bytes of the file
+    for (k, opts, ovl), (orc, oso, ose) in zip(off_jobs, off_res):
+        f = files[k]
+        h, b = f['h'], f['bytes']
+        evals[0] += 1
+        flags = ''.join(o[1] for o in opts)
+        count('ncoffsets -%s%s' % (flags or '-', ' -v' if ovl else ''))
+        distinct.add(('off', k, opts, tuple(ovl or ())))
+        replay = dict(options=list(opts) + (['-v', ','.join(ovl)] if ovl else []), logical=f['L'], script='emit_script(logical) through harness/apirun.c',
+                      ncoffsets_output=oso[-1500:], ncoffsets_exit=orc)
+        want, gaps = expect_offsets(h, f['hl'], flags, ovl)
+        if 'x' in flags:
+            if orc != 0 or oso.strip() != str(gaps):
+                fail('ncoffsets-disagrees', 'ncoffsets -x prints %r, the fixed-size variables of the file %s gaps' % (oso.strip(), 'have' if gaps else 'have no'), replay)
+            continue
+        got = parse_offsets_full(oso)
+        if orc != 0 or got != want:
+            diffs = [kk for kk in want if kk != 'vars' and got.get(kk) != want[kk]] + \
+                    ['%s.%s: printed %s, file %s' % (g.get('name'), kk, g.get(kk), w.get(kk)) for g, w in zip(got['vars'], want['vars']) for kk in w if g.get(kk) != w[kk]]
+            fail('ncoffsets-disagrees', 'ncoffsets %s prints numbers that differ from the layout of the file: %s' % (' '.join(replay['options']), diffs[:4]),
+                 dict(replay, expected=want, printed=got))
+            continue
+        lay, recsize = layout(h)
+        # per-record offsets against the Lean layout (Tools.offsetsRecs: begin + r * recsize, packing rule of Header.cvsRec)
+        lo = f.get('lean_O')
+        if 'r' in flags and lo and ' R ' in lo:
+            groups = lo.split(' R ')[1].split(' ; ')
+            model_rs, model_nr = [int(x) for x in groups[0].split()]
+            for vi, g in enumerate(groups[1:]):
+                if g.strip() == 'f':
+                    continue
+                mod = [tuple(int(x) for x in p_.split(',')) for p_ in g.split()]
+                pv = [x for x in got['vars'] if x['name'] == h.vars[vi]['name'].decode()]
+                if pv and list(zip(pv[0]['starts'], pv[0]['ends'])) != mod:
+                    ties.append(('offsets-r', 'file %s variable %s: ncoffsets -r prints %s, Tools.offsetsRecs %s (recsize %d)'
+                                 % (k, pv[0]['name'], list(zip(pv[0]['starts'], pv[0]['ends']))[:4], mod[:4], model_rs), replay))
+        # raw reads: the bytes at the printed offsets are the values the logical description put there
+        for pvar in got['vars']:
+            Lv = [x for x in f['L']['vars'] if x['name'] == pvar['name']][0]
+            if pvar['kind'] == 'rec' and 'r' not in flags and f['L']['numrecs'] == 0:
+                continue
+            for r_, (st_, en_) in enumerate(zip(pvar['starts'], pvar['ends'])):
+                raw = b[st_:en_]
+                exp_ = pack_vals(XT_CODE[Lv['xt']], Lv['data'][r_])
+                if raw + b'\0' * (len(exp_) - len(raw)) != exp_ and len(exp_) == en_ - st_:
+                    fail('ncoffsets-disagrees', 'the bytes of the file at the offsets ncoffsets prints for %s record %d [%d, %d) are not the values of that record'
+                         % (pvar['name'], r_, st_, en_), dict(replay, found=raw.hex(), values=exp_.hex()))
+                    break
     # partition: extracted C statements vs Tools.rankBox; property: the blocks tile the dimension
     def boxes(ansline):
         return [[tuple(int(x) for x in p.split(',')) for p in g.split()] for g in ansline[2:].split(' | ')] if ansline.strip() != 'P' else [[]]
